@@ -52,7 +52,15 @@ Definition text_agrees (c : text_case) : bool :=
       match packed with Ok j => res_agree ptuple_eqb (unpack_model j) unpacked | _ => true end
   | TPackBytes t sn raw =>
       bytes_eqb (json_pack_bytes t sn) raw &&
-      forallb (fun sg => match b64_decode (b64_encode (fst sg)) with Some b => bytes_eqb b (fst sg) | None => false end) (pt_sigs t)
+      forallb (fun sg => match b64_decode (b64_encode (fst sg)) with Some b => bytes_eqb b (fst sg) | None => false end) (pt_sigs t) &&
+      (* the reader model recovers the tuple from the real bytes (when the report has the codec's own shape) *)
+      match json_report_parse (pt_report t) with
+      | Some _ => match json_unpack_bytes raw with
+                  | Some (t', sn') => ptuple_eqb t t' && match pt_sigs t with [] => Bool.eqb sn sn' | _ => true end
+                  | None => false
+                  end
+      | None => true
+      end
   end.
 Definition text_skipped (c : text_case) : bool :=
   match c with
